@@ -14,6 +14,11 @@ corresponding public API calls are made with the settings the flags *document*:
   drt      calculate_drt(data, method, <method options>, num_procs=1) -> to_statistics_dataframe(),
            to_peaks_dataframe(threshold) if --threshold >= 0, analyze_peaks(...).to_peaks_dataframe() if --analyze-peaks
 
+  test     perform_exploratory_kramers_kronig_tests(data, test, admittance=None|-Y|-Z, num_F_ext_evaluations, log_F_ext,
+           add_capacitance, add_inductance, num_RCs for --max-num-RC, num_procs=1) -> suggestion[0], or with --num-RC N the test
+           with N RC elements of the SUGGESTED representation -> to_statistics_dataframe(extended_statistics=0)
+           (-es 0 only: higher levels raise in both routes with this scipy)
+
 and every printed table is compared cell by cell with the API DataFrame: same columns in the same order, same number
 of rows, same text cells, numbers equal to the printed precision (vlib.c19_cli: csv shortest round-trip text, md
 N significant digits, json ten decimals).
@@ -61,7 +66,10 @@ RULE = (
     "--average; (circuit) CDCs printed from random gen_circuit trees, fit-model CDCs and mock identifiers x -f/-F/-npd; "
     "(fit) 9 mock circuits x perturbed start values x 9 methods x 4 weights x {max-nfev, refinements, running count, "
     "fixed parameters, labels} on mock specifiers and on files; (drt) tr-nnls {real, imaginary, complex} x {lambda fixed "
-    "| automatic} x {max-iter given | default}, lm {matrix_rank | fixed order}, mrq-fit, x threshold x analyze-peaks; (multi) fit/drt "
+    "| automatic} x {max-iter given | default}, lm {matrix_rank | fixed order}, mrq-fit, x threshold x analyze-peaks; (test) the "
+    "Kramers-Kronig command over the cells {automatic | explicit --num-RC} x {automatic representation | -Y | -Z} x spectra for "
+    "which the impedance / the admittance representation is suggested x {real, complex, imaginary} x {-nFee 0 with 4 log Fext "
+    "values, --max-num-RC; thorough also +-10 evaluations} x {-C, -L}; (multi) fit/drt "
     "invocations with 2-3 data sets (several specifiers, a wildcard, a 2-3 sweep file) x 0/1/2 refinements, every data set "
     "compared with its own API route from the CDC as given; a few "
     "of each as real subprocesses. A job is non-trivial when at least one table with >= 1 number was compared; distinct = "
@@ -92,6 +100,9 @@ FLAGS = {
     "circuit": ("--circuit", "-c"), "gaussian_width": ("--gaussian-width", "-gw"), "npd": ("--num-per-decade", "-npd"),
     "min_f": ("--min-frequency", "-f"), "max_f": ("--max-frequency", "-F"), "simulate": ("--simulate", "-s"),
     "analyze_peaks": ("--analyze-peaks", "-ap"), "num_peaks": ("--num-peaks", "-np"), "disallow_skew": ("--disallow-skew", "-ds"),
+    "num_RC": ("--num-RC", "-n"), "max_num_RC": ("--max-num-RC", "-N"), "admittance": ("--admittance", "-Y"), "impedance": ("--impedance", "-Z"),
+    "test": ("--test", "-t"), "nfee": ("--num-F-ext-evaluations", "-nFee"), "log_F_ext": ("--log-F-ext", "-lFe"),
+    "no_capacitance": ("--no-capacitance", "-C"), "no_inductance": ("--no-inductance", "-L"), "es": ("--extended-statistics", "-es"),
     "max_nfev": ("--max-nfev", "--max-nfev"), "max_iter": ("--max-iter", "--max-iter"), "num_procs": ("--num-procs", "--num-procs"),
 }
 
@@ -592,6 +603,55 @@ def gen_drt_multi_job(rng):
     return job
 
 
+# Kramers-Kronig `test` jobs: option cells (number of RC elements, representation, kind of spectrum).  Pilot (18 spectra per entry:
+# 3 point densities x 3 seeds x 2 noise levels, -nFee 0): the impedance representation is suggested 18/18 for CIRCUIT_11 (real,
+# complex), CIRCUIT_12 (imaginary), 15/18 for CIRCUIT_1 (real); the admittance representation 18/18 for CIRCUIT_8, 16-18/18 for CIRCUIT_3.
+KK_Z_SPECTRA = [("CIRCUIT_12", "imaginary"), ("CIRCUIT_11", "real"), ("CIRCUIT_11", "complex")]
+KK_Y_SPECTRA = [("CIRCUIT_8", "real"), ("CIRCUIT_8", "imaginary"), ("CIRCUIT_8", "complex")]
+KK_ANY_SPECTRA = [("CIRCUIT_1", "real"), ("CIRCUIT_3", "imaginary"), ("CIRCUIT_2", "real"), ("CIRCUIT_5", "complex"), ("CIRCUIT_1", "imaginary"),
+                  ("CIRCUIT_3", "real"), ("CIRCUIT_2_INVALID", "real"), ("CIRCUIT_13", "imaginary")]
+KK_CELLS = [("explicit", "auto", "Z"), ("explicit", "auto", "Y"), ("auto", "auto", "Z"), ("explicit", "Y", "any"), ("explicit", "Z", "any"),
+            ("auto", "auto", "Y"), ("auto", "Y", "any"), ("auto", "Z", "any"), ("explicit", "auto", "any"), ("auto", "auto", "any"),
+            ("explicit", "auto", "Z"), ("explicit", "auto", "Y")]
+
+
+def gen_test_job(rng, slot=0, slow=False):
+    """`pyimpspec test` (Kramers-Kronig): cell = KK_CELLS[slot % 12] so that every quick run (12 jobs) holds every cell."""
+    from pyimpspec import generate_mock_data
+
+    numrc, rep, kind = KK_CELLS[int(slot) % len(KK_CELLS)]
+    pool = {"Z": KK_Z_SPECTRA, "Y": KK_Y_SPECTRA, "any": KK_ANY_SPECTRA}[kind]
+    mid, test = pool[int(rng.integers(0, len(pool)))]
+    job = {"cmd": "test", "clause": "test", "mode": "inproc", "files": [], "inputs": [], "ot": False, "nds": [], "average": False,
+           "lpf": None, "hpf": None, "ei": [], "test": test, "rep": rep, "kk_kind": kind}
+    kw = {"noise": str(rng.choice(["0.05", "0.2", "0.5"])), "seed": str(int(rng.integers(0, 100000)))}
+    if rng.random() < 0.8:
+        kw["num_per_decade"] = str(int(rng.choice([4, 5, 6])))
+    if rng.random() < 0.75:
+        job["inputs"].append({"mock": mid, "kw": kw, "spec": _spec(mid, kw), "cell": "mock"})
+    else:
+        with warnings.catch_warnings():
+            warnings.simplefilter("ignore")
+            d = generate_mock_data(mid, **_typed_kwargs(kw))[0]
+        rec, inp, _fs = _file_input(rng, sweeps=[([float(x) for x in d.get_frequencies(masked=None)], [complex(z) for z in d.get_impedances(masked=None)])], physical=True)
+        job["files"].append(rec)
+        job["inputs"].append(inp)
+    job["num_RC"] = int(rng.integers(3, 13)) if numrc == "explicit" else None
+    job["max_num_RC"] = int(rng.choice([15, 25])) if (numrc == "auto" and rng.random() < 0.5) else None
+    job["nfee"] = 0
+    job["log_F_ext"] = float(rng.choice([0.3, -0.2, 0.1])) if rng.random() < 0.4 else None
+    if slow and rng.random() < 0.15 and job["max_num_RC"] is None:
+        job["nfee"] = int(rng.choice([10, -10]))
+        job["log_F_ext"] = None
+    job["no_capacitance"] = bool(rng.random() < 0.15)
+    job["no_inductance"] = bool(rng.random() < 0.15)
+    _rand_fmt(rng, job)
+    if rng.random() < 0.15:
+        job["ot"] = True
+        job["on"] = ""
+    return job
+
+
 def gen_subproc_job(rng, which):
     job = {"parse": gen_parse_job, "mock": gen_mock_job, "circuit": gen_circuit_job, "fit": gen_fit_job, "drt": gen_drt_job}[which](rng)
     job["mode"] = "subproc"
@@ -686,6 +746,25 @@ def build_argv(job, work, outdir):
                 a += [_fl(job, "num_peaks"), str(ap["num_peaks"])]
             if ap.get("disallow_skew"):
                 a.append(_fl(job, "disallow_skew"))
+        return a + _output_args(job, outdir)
+    if cmd == "test":
+        a = ["test"] + _input_args(job, work, rel) + _filter_args(job) + [_fl(job, "test"), job["test"], "--num-procs", "1", _fl(job, "es"), "0"]
+        if job["rep"] == "Y":
+            a.append(_fl(job, "admittance"))
+        elif job["rep"] == "Z":
+            a.append(_fl(job, "impedance"))
+        if job.get("num_RC") is not None:
+            a += [_fl(job, "num_RC"), str(job["num_RC"])]
+        if job.get("max_num_RC") is not None:
+            a += [_fl(job, "max_num_RC"), str(job["max_num_RC"])]
+        if job.get("nfee") is not None:
+            a += [_fl(job, "nfee"), str(job["nfee"])]
+        if job.get("log_F_ext") is not None:
+            a += [_fl(job, "log_F_ext"), _num(job["log_F_ext"])]
+        if job.get("no_capacitance"):
+            a.append(_fl(job, "no_capacitance"))
+        if job.get("no_inductance"):
+            a.append(_fl(job, "no_inductance"))
         return a + _output_args(job, outdir)
     raise ValueError(cmd)
 
@@ -785,7 +864,41 @@ def api_tables(job, work, perturb=False):
                 for p in (pk if isinstance(pk, tuple) else (pk,)):
                     tabs.append(p.to_peaks_dataframe())
         return tabs
+    if cmd == "test":
+        # the documented pipeline: evaluate_log_F_ext + suggest_num_RC per representation + suggest_representation, wrapped by
+        # perform_exploratory_kramers_kronig_tests; --num-RC N then names the test with N RC elements OF THE SUGGESTED representation
+        from pyimpspec.analysis.kramers_kronig import perform_exploratory_kramers_kronig_tests
+
+        tabs = []
+        kw = {"test": job["test"], "admittance": {"auto": None, "Y": True, "Z": False}[job["rep"]], "num_procs": 1}
+        if job.get("max_num_RC") is not None:
+            kw["num_RCs"] = list(range(2, job["max_num_RC"] + 1))
+            kw["num_F_ext_evaluations"] = 0  # documented: a maximum number of RC elements implies a fixed log Fext
+        elif job.get("nfee") is not None:
+            kw["num_F_ext_evaluations"] = job["nfee"]
+        if job.get("log_F_ext") is not None:
+            kw["log_F_ext"] = job["log_F_ext"]
+        if job.get("no_capacitance"):
+            kw["add_capacitance"] = False
+        if job.get("no_inductance"):
+            kw["add_inductance"] = False
+        del _KK_SUGGESTED[:]
+        for d in _api_datasets(job, work, perturb):
+            tests, suggestion = perform_exploratory_kramers_kronig_tests(d, **kw)
+            result = suggestion[0]
+            _KK_SUGGESTED.append("Y" if result.admittance else "Z")
+            if job.get("num_RC") is not None:
+                match = [t for t in tests if t.num_RC == job["num_RC"]]
+                if not match:
+                    raise _Refused(f"no test with {job['num_RC']} RC elements in the evaluated range")
+                result = match[0]
+            tabs.append(result.to_statistics_dataframe(extended_statistics=0))
+        return tabs
     raise ValueError(cmd)
+
+
+# representation suggested by the API route of the most recent `test` job, per data set
+_KK_SUGGESTED = []
 
 
 # ------------------------------------------------------------------------------------------------
@@ -816,6 +929,9 @@ def _job_key(job):
         extra = (job["method"], o.get("mode"), "lambda_value" in o, "max_iter" in o, o.get("model_order"), job.get("threshold") is not None, job.get("analyze_peaks") is not None)
     elif job["cmd"] == "circuit":
         extra = (job.get("npd"), job.get("min_f") is None, len(job["inputs"]))
+    elif job["cmd"] == "test":
+        extra = (job["test"], job["rep"], job.get("num_RC") is not None, job.get("max_num_RC"), job.get("nfee"), job.get("log_F_ext"),
+                 job.get("no_capacitance"), job.get("no_inductance"), tuple(_KK_SUGGESTED))
     return (job["clause"], job["mode"], job.get("fmt"), job.get("osd"), bool(job.get("oi")), bool(job.get("ot")), bool(job.get("short")), inp, filt, extra, job.get("multi", 1))
 
 
@@ -945,6 +1061,9 @@ def run_job(job, res):
             st("fit_jobs")
             if any(m_ == "leastsq" and ab for m_, ab in _FIT_CHAIN):
                 st("fit_jobs_with_aborted_leastsq_fit")
+        if clause == "test":
+            for sug in _KK_SUGGESTED:
+                st("test_cell:num_RC=%s:representation=%s:suggested=%s" % ("explicit" if job.get("num_RC") is not None else "auto", job["rep"], sug))
         if len(tables) != len(expected):
             viol.append({"key": f"C19/{clause}/{fmt}/table-count",
                          "msg": f"pyimpspec {' '.join(argv)}: {len(tables)} table(s) found in the {fmt} output, the API calls give {len(expected)}",
@@ -952,7 +1071,7 @@ def run_job(job, res):
             return
         nontrivial = False
         ill = None
-        extra = C.REL_ITERATIVE if clause in ("fit", "drt") else 0.0
+        extra = C.REL_ITERATIVE if clause in ("fit", "drt", "test") else 0.0
         for k, (tab, df) in enumerate(zip(tables, expected)):
             r = C.compare_table(tab, df, osd, bool(job.get("oi")), extra)
             res["evals"] += 1
@@ -1003,9 +1122,9 @@ def run_job(job, res):
 # ------------------------------------------------------------------------------------------------
 # runner API
 # ------------------------------------------------------------------------------------------------
-QUICK = {"parse": (24, 24), "mock": (16, 24), "circuit": (16, 6), "fit": (32, 3), "drt": (24, 3), "fitmulti": (16, 1), "drtmulti": (8, 1), "subproc": 6}
-THOROUGH = {"parse": (160, 40), "mock": (120, 40), "circuit": (160, 8), "fit": (320, 4), "drt": (240, 4), "fitmulti": (120, 2), "drtmulti": (60, 2), "subproc": 32}
-_BLOCK = {"parse": 1, "mock": 2, "circuit": 3, "fit": 4, "drt": 5, "subproc": 6, "fitmulti": 7, "drtmulti": 8}
+QUICK = {"parse": (24, 24), "mock": (16, 24), "circuit": (16, 6), "fit": (32, 3), "drt": (24, 3), "fitmulti": (16, 1), "drtmulti": (8, 1), "test": (6, 2), "subproc": 6}
+THOROUGH = {"parse": (160, 40), "mock": (120, 40), "circuit": (160, 8), "fit": (320, 4), "drt": (240, 4), "fitmulti": (120, 2), "drtmulti": (60, 2), "test": (60, 2), "subproc": 32}
+_BLOCK = {"parse": 1, "mock": 2, "circuit": 3, "fit": 4, "drt": 5, "subproc": 6, "fitmulti": 7, "drtmulti": 8, "test": 9}
 _GEN = {"parse": gen_parse_job, "mock": gen_mock_job, "circuit": gen_circuit_job, "fit": gen_fit_job, "drt": gen_drt_job,
         "fitmulti": gen_fit_multi_job, "drtmulti": gen_drt_multi_job}
 
@@ -1013,7 +1132,7 @@ _GEN = {"parse": gen_parse_job, "mock": gen_mock_job, "circuit": gen_circuit_job
 def gen_cases(tier, seed):
     P = QUICK if tier == "quick" else THOROUGH
     cases = []
-    for kind in ("parse", "mock", "circuit", "fit", "drt", "fitmulti", "drtmulti"):
+    for kind in ("parse", "mock", "circuit", "fit", "drt", "fitmulti", "drtmulti", "test"):
         ncases, count = P[kind]
         for i in range(ncases):
             cases.append({"kind": kind, "seed": [int(seed), _BLOCK[kind], i], "count": count, "slow": tier == "thorough"})
@@ -1042,6 +1161,8 @@ def run_case(case):
             jobs = [gen_subproc_job(rng, case["which"])]
         elif kind == "drt":
             jobs = [gen_drt_job(rng, allow_slow=bool(case.get("slow"))) for _ in range(case["count"])]
+        elif kind == "test":
+            jobs = [gen_test_job(rng, slot=case["seed"][2] * case["count"] + j, slow=bool(case.get("slow"))) for j in range(case["count"])]
         else:
             jobs = [_GEN[kind](rng) for _ in range(case["count"])]
     for job in jobs:
@@ -1071,6 +1192,17 @@ def finalize(agg):
         inc.append("no `fit` invocation with several data sets and >= 1 refinement was compared (state carried from one data set to the next would go unseen)")
     if st.get("multi_dataset_drt_jobs", 0) == 0:
         inc.append("no `drt` invocation with several data sets was compared")
+    if sum(v for k, v in st.items() if k.startswith("tables_compared:test:")) == 0:
+        inc.append("no table of the Kramers-Kronig 'test' command was compared with the API")
+    def cell(numrc, rep, sug=None):
+        return sum(v for k, v in st.items() if k.startswith(f"test_cell:num_RC={numrc}:representation={rep}:") and (sug is None or k.endswith("=" + sug)))
+
+    for sug, name in (("Z", "impedance"), ("Y", "admittance")):
+        if cell("explicit", "auto", sug) == 0:
+            inc.append(f"no `test --num-RC N` job with automatic choice of representation on a spectrum for which the {name} representation is suggested was compared")
+    for numrc, rep in (("auto", "auto"), ("explicit", "Y"), ("explicit", "Z"), ("auto", "Y"), ("auto", "Z")):
+        if cell(numrc, rep) == 0:
+            inc.append(f"no `test` job in the cell num_RC={numrc}, representation={rep} was compared")
     if st.get("output_files_read", 0) == 0:
         inc.append("no file written with --output-to was read back")
     info = {"tolerances": {"csv_relative": C.TOL_CSV, "json_absolute": C.JSON_ABS, "md": "0.5*10**(1-N) relative, N = --output-significant-digits"},
